@@ -38,11 +38,11 @@ func walkCheck(id string, fam *e1.Family, tier common.Tier) int {
 						continue
 					}
 					for wr := e1.WNone; wr < e1.NumWrappers(); wr++ {
-						if b.Encl == e1.EPkgVarDirect && wr != e1.WNone {
+						if (b.Encl == e1.EPkgVarDirect || b.Encl == e1.EPkgVarDirectRev) && wr != e1.WNone {
 							continue
 						}
 						for si := range sites {
-							if b.Encl == e1.EPkgVarDirect && sites[si].PkgLevel == "" {
+							if (b.Encl == e1.EPkgVarDirect || b.Encl == e1.EPkgVarDirectRev) && sites[si].PkgLevel == "" && len(sites[si].PkgLines) == 0 {
 								continue
 							}
 							idx++
